@@ -471,8 +471,10 @@ register_internal (GIRepository *repository,
 					namespace,
 					(gpointer)&key, &value))
 	g_hash_table_remove (repository->priv->lazy_typelibs, key);
-      else
-	key = build_typelib_key (namespace, source);
+
+      /* The key of the lazy entry was just freed, and the typelib loaded now
+       * need not come from the same file: build the key from its source */
+      key = build_typelib_key (namespace, source);
 
       g_hash_table_insert (repository->priv->typelibs, key, (void *)typelib);
     }
